@@ -236,6 +236,14 @@ func (a c09ValidatorAuthorizer) ValidateAuthRequest(ctx context.Context, req *oi
 	return op.ValidateAuthRequest(ctx, req, st, v)
 }
 
+// c09LenientAuthorizer: a validator that accepts every request without looking the client up: op.Authorize has to
+// fetch the client itself (and to refuse a client_id nobody registered before anything is stored)
+type c09LenientAuthorizer struct{ *op.Provider }
+
+func (a c09LenientAuthorizer) ValidateAuthRequest(context.Context, *oidc.AuthRequest, op.Storage, *op.IDTokenHintVerifier) (string, error) {
+	return "", nil
+}
+
 func c09NewBed(router string, reqObj bool) *c09Bed {
 	cfg := opbed.Config{Router: router, S256: true, Post: true, PrivateKeyJWT: true, Refresh: true, RequestObject: reqObj, JWTProfileGrant: true,
 		Caps: refstore.Caps{CC: true, TE: true, TEVerifier: false, Device: true}}
@@ -262,11 +270,15 @@ func c09NewBed(router string, reqObj bool) *c09Bed {
 	if custom {
 		// only /authorize is mounted: op.Authorize with an authorizer that implements op.AuthorizeValidator
 		mux := http.NewServeMux()
+		var authorizer op.Authorizer = c09ValidatorAuthorizer{bed.Provider}
+		name = "authorize-validator"
+		if reqObj {
+			authorizer, name = c09LenientAuthorizer{bed.Provider}, "authorize-validator-lenient"
+		}
 		mux.Handle("/authorize", op.NewIssuerInterceptor(bed.Provider.IssuerFromRequest).HandlerFunc(func(w http.ResponseWriter, r *http.Request) {
-			op.Authorize(w, r, c09ValidatorAuthorizer{bed.Provider})
+			op.Authorize(w, r, authorizer)
 		}))
 		bed.Handler = mux
-		name = "authorize-validator"
 	}
 	return &c09Bed{bed: bed, router: router, cfg: name, cls: cls, sy: newSymbols(), hintMaxAge: reqObj}
 }
@@ -885,7 +897,7 @@ func (cb *c09Bed) signedTimeCases(r *hx.Rand, full bool) []*c09Req {
 
 func c09HandlerStream(r *hx.Rand, n int, big int, full bool, emit func(*hx.Line), stats map[string]int) {
 	beds := []*c09Bed{c09NewBed("provider", false), c09NewBed("legacy", false), c09NewBed("provider", true), c09NewBed("legacy", true)}
-	customBed := c09NewBed("custom-authorize", false)
+	customBed, lenientBed := c09NewBed("custom-authorize", false), c09NewBed("custom-authorize", true)
 	hostile := c09HostileTokens(r)
 	run := func(cb *c09Bed, q *c09Req) {
 		req := q.build()
@@ -950,20 +962,35 @@ func c09HandlerStream(r *hx.Rand, n int, big int, full bool, emit func(*hx.Line)
 		}
 	}
 	// correctly signed tokens at every time boundary, at every endpoint that takes one, on every bed
-	for _, cb := range append(append([]*c09Bed{}, beds...), customBed) {
+	for _, cb := range append(append([]*c09Bed{}, beds...), customBed, lenientBed) {
 		for _, q := range cb.signedTimeCases(r, full) {
 			run(cb, q)
 		}
 	}
 	// op.Authorize behind an authorizer with its own validation (op.AuthorizeValidator): valid and mutated requests
-	for i := 0; i < 40+n/100; i++ {
-		q := customBed.base(r, "/authorize", "")
-		if i > 0 {
+	for i := 0; i < 2*(40+n/100); i++ {
+		cb := customBed
+		if i%2 == 1 {
+			cb = lenientBed
+		}
+		q := cb.base(r, "/authorize", "")
+		switch {
+		case i < 2:
+		case i < 14:
+			// the k-th storage call of an otherwise valid request fails (the client lookup of op.Authorize itself included)
+			k := 1 + (i-2)/2
+			q.muts = append(q.muts, fmt.Sprintf("storage-fault:%d", k))
+			cb.bed.Store.FailAt(k, fmt.Errorf("injected storage failure"))
+		case i < 20:
+			q.query.Set("client_id", hx.Pick(r, "nobody", "", "web2"))
+			q.muts = append(q.muts, "client-id-switched")
+		default:
 			for j := r.Intn(3); j > 0; j-- {
-				q.muts = append(q.muts, customBed.mutate(r, q, hostile, big))
+				q.muts = append(q.muts, cb.mutate(r, q, hostile, big))
 			}
 		}
-		run(customBed, q)
+		run(cb, q)
+		cb.bed.Store.ClearFaults()
 	}
 	// every route x method x grant once, valid and with one mutation; then random combinations
 	for i := 0; i < n; i++ {
